@@ -12,4 +12,4 @@ for _n, _tier in ((2, "quick"), (3, "thorough")):
                                                    # the heartbeat/SYNC producers are cyclic timer actions: their period is kept only if create/delete keep every other action's due time
                                                    "C10": (_tier if _nm in ("create", "delete") else "thorough")}))
     for _op, _nm in ((0, "create"), (1, "delete"), (3, "process")):
-        GROUPS.append(_t("tmr%d_isr_%s" % (_n, _nm), "COTmr" + _nm.capitalize(), _op, _n, {"C08": _tier}, isr=True))
+        GROUPS.append(_t("tmr%d_isr_%s" % (_n, _nm), "COTmr" + _nm.capitalize(), _op, _n, {"C08": ("thorough" if _nm == "process" else _tier)}, isr=True))
